@@ -8,6 +8,7 @@ import (
 	"context"
 	"errors"
 	"fmt"
+	"strings"
 	"sync"
 	"time"
 
@@ -117,8 +118,11 @@ func (s *shutdownContext) handleProcessExit(termination supvmodel.ProcessTermina
 // (one the shutdown of that generation stopped waiting for), so that later
 // shutdowns do not wait for it again.
 func (s *shutdownContext) handleLateProcessExit(name string) {
-	if exitedChannel, found := s.getExitedChannel(name); found {
+	s.runtimeDomainExitedMutex.Lock()
+	defer s.runtimeDomainExitedMutex.Unlock()
+	if exitedChannel, found := s.runtimeDomainExited[name]; found {
 		close(exitedChannel)
+		delete(s.runtimeDomainExited, name)
 	}
 }
 
@@ -158,12 +162,17 @@ func (s *shutdownContext) removeExitedChannel(name string) {
 //
 // It is OK not to hold the lock because we know that this is called only during
 // shutdown and nobody will start a new process during shutdown
-func (s *shutdownContext) clearExitedChannel() error {
+func (s *shutdownContext) clearExitedChannel(generation uint32) error {
+	// Processes of earlier generations that an earlier shutdown gave up waiting for
+	// (see maxProcessExitWait) may still be in the map; only wait for our own.
+	generationSuffix := fmt.Sprintf("-%d", generation)
 	s.runtimeDomainExitedMutex.Lock()
 	mapLen := len(s.runtimeDomainExited)
 	channels := make([]chan struct{}, 0, mapLen)
-	for _, v := range s.runtimeDomainExited {
-		channels = append(channels, v)
+	for name, v := range s.runtimeDomainExited {
+		if strings.HasSuffix(name, generationSuffix) {
+			channels = append(channels, v)
+		}
 	}
 	s.runtimeDomainExitedMutex.Unlock()
 
@@ -374,7 +383,7 @@ func (s *shutdownContext) shutdown(execCtx *rapidContext, deadlineNs int64, reas
 	}
 
 	log.Info("Waiting for runtime domain processes termination")
-	if err := s.clearExitedChannel(); err != nil {
+	if err := s.clearExitedChannel(execCtx.runtimeDomainGeneration); err != nil {
 		log.Error(err)
 	}
 
